@@ -587,6 +587,7 @@ func TestVerifC04Host(t *testing.T) {
 	distinct := map[string]struct{}{}
 	classes := map[string]struct{}{}
 	idx, notReached := 0, 0
+	defer func() { r.Distinct = int64(len(distinct)) }()
 	for _, cfg := range cfgs {
 		for mi, mode := range modes {
 			cur = fmt.Sprintf("%s/%s dry run", cfg, mode)
@@ -649,6 +650,5 @@ func TestVerifC04Host(t *testing.T) {
 			}
 		}
 	}
-	r.Distinct = int64(len(distinct))
 	r.Note("cases whose fault position was not reached: %d; distinct (configuration, mode, fault kind, side, connect result, stream result) classes in this shard: %d", notReached, len(classes))
 }
